@@ -8,6 +8,7 @@ import (
 
 	sdkmath "cosmossdk.io/math"
 	sdk "github.com/cosmos/cosmos-sdk/types"
+	authtypes "github.com/cosmos/cosmos-sdk/x/auth/types"
 	"github.com/ethereum/go-ethereum/common"
 	ethtypes "github.com/ethereum/go-ethereum/core/types"
 	"github.com/ethereum/go-ethereum/core/vm"
@@ -76,8 +77,14 @@ func ledgerWorld(run *vh.Run, which, label string, wi int, v ledgerCase, nBlocks
 		orphanAccs = append(orphanAccs, vh.GenAccount{Addr: a, NoAuthAccount: true,
 			Coins: sdk.NewCoins(sdk.NewCoin(vh.Denom, sdkmath.NewInt(int64(1+r.Intn(1000))*1e12)), sdk.NewCoin(vh.SecondDenom, sdkmath.NewInt(int64(1+r.Intn(1_000_000)))))})
 	}
+	// module accounts as recipients (transfers, calls with value, SELFDESTRUCT beneficiaries): the EVM module's own account,
+	// through which every credit is minted and forwarded, and a few others x/bank refuses to credit
+	pool := append([]common.Address{}, orphans...)
+	for _, name := range []string{"evm", "evm", authtypes.FeeCollectorName, "distribution", "gov", "cpc", "bonded_tokens_pool"} {
+		pool = append(pool, common.BytesToAddress(authtypes.NewModuleAddress(name)))
+	}
 	w := vh.NewWorld(r, vh.WorldOpts{Chain: vh.Config{Seed: r.U64(), NumVals: 1 + wi%3, MaxGas: v.MaxGas, BaseFee: big.NewInt(v.BaseFee), Accounts: orphanAccs}, NumEOA: 6,
-		Prog: vh.ProgOpts{MaxLen: 7, Depth: 2}, ExtraPool: orphans})
+		Prog: vh.ProgOpts{MaxLen: 7, Depth: 2}, ExtraPool: pool})
 	defer w.C.Cleanup()
 	// half of the EOAs never receive value from generated programs (C05 senders): keep them out of the pool
 	pure := w.EOAs[:3]
